@@ -75,3 +75,102 @@ func VH_C04_rotate_loc() {
 	}
 	vC04Loc(vShard(n), 4)
 }
+
+// ---- API level: gts.Rotate on a sequence --------------------------------------------------
+
+func vMod(x, L int) int { // x mod L for x in [-4L, 4L], non-negative result
+	r := x
+	for k := 0; k < 4; k++ {
+		r = vIte(r < 0, r+L, r)
+	}
+	for k := 0; k < 4; k++ {
+		r = vIte(r >= L, r-L, r)
+	}
+	return r
+}
+
+func vGenApiLoc(name string, L int, shape int) Location {
+	switch shape {
+	case 0:
+		return vGenAtom(name, L, 3)
+	case 1:
+		return Join(vGenParts(name, 2, L, 1)...)
+	case 2:
+		return vGenAtom(name, L, 1).Complement()
+	default:
+		return Order(vGenParts(name, 2, L, 2)...)
+	}
+}
+
+//verif:harness prop=C04 quick=4 thorough=12 timeout=2400 merge=concrete
+//verif:bounds API level: gts.Rotate on sequences of length L in {2,3} (quick) / 1..6 (thorough; shape per length as listed in the harness table) with symbolic residues, every n in [-3L,3L] (enumerated), one feature (range/point/between | 2-part join | complemented range | 2-part order) with symbolic coordinates plus a full-length source: residues move to (k+n) mod L, the feature denotes the same residues, rotations compose additively and Rotate(-n) undoes Rotate(n)
+func VH_C04_rotate_api() {
+	// (L, shape) per shard; shape 0 atom (range/point/between), 1 2-part join, 2 complemented range, 3 2-part order
+	table := [][2]int{{2, 0}, {3, 0}, {3, 2}, {2, 1}, {1, 0}, {4, 0}, {4, 2}, {3, 1}, {2, 3}, {5, 0}, {3, 3}, {6, 2}}
+	ns := 4 + 8*vTier()
+	pick := table[vShard(ns)]
+	L, shape := pick[0], pick[1]
+	data := vBytes("r", L)
+	loc := vGenApiLoc("f", L, shape%4)
+	ff := FeatureSlice{}
+	ff = ff.Insert(Feature{"source", Range(0, L), vFeatTag(0)})
+	ff = ff.Insert(Feature{"gene", loc, vFeatTag(1)})
+	seq := New(nil, ff, data)
+	n := vChoice("n", 6*L+1) - 3*L // every n in [-3L,3L] (concrete per path: Rotate slices by it)
+	out := Rotate(seq, n)
+	vCover("rotated")
+	got := out.Bytes()
+	vAssert("length", len(got) == L)
+	for k := 0; k < L; k++ {
+		// residue k moves to (k+n) mod L
+		idx := vMod(k+n, L)
+		sel := -1
+		for j := range got {
+			sel = vIte(idx == j, int(got[j]), sel)
+		}
+		vAssert("residue-moved", sel == int(data[k]))
+	}
+	vAssert("arg-unchanged", len(seq.Bytes()) == L)
+	as := vAtoms(loc)
+	var bs []vAtom
+	cnt := 0
+	for _, f := range out.Features() {
+		if f.Key == "gene" {
+			bs = vAtoms(f.Loc)
+			cnt++
+		} else {
+			sa := vAtoms(f.Loc)
+			vAssert("full-length-stays", vAnd(len(sa) == 1, vAnd(sa[0].s == 0, sa[0].e == L)))
+		}
+	}
+	vAssert("feature-present-once", cnt == 1)
+	if cnt != 1 {
+		return
+	}
+	vAssert("in-range", vInRange(bs, L))
+	x := vIntIn("x", 0, L)
+	vAssume(x < L)
+	mx := vMod(x+n, L)
+	vAssert("cov-fwd", vCovS(as, x, false) == vCovS(bs, mx, false))
+	vAssert("cov-rev", vCovS(as, x, true) == vCovS(bs, mx, true))
+	// additive composition and inverse, on residues and coverage
+	b := []int{-1, 1, L}[vChoice("b", 3)]
+	two := Rotate(out, b)
+	one := Rotate(seq, n+b)
+	for j := 0; j < L; j++ {
+		vAssert("additive-residues", two.Bytes()[j] == one.Bytes()[j])
+	}
+	var t2, t1 []vAtom
+	for _, f := range two.Features() {
+		if f.Key == "gene" {
+			t2 = vAtoms(f.Loc)
+		}
+	}
+	for _, f := range one.Features() {
+		if f.Key == "gene" {
+			t1 = vAtoms(f.Loc)
+		}
+	}
+	vAssert("additive-coverage", vAnd(vCovS(t2, x, false) == vCovS(t1, x, false), vCovS(t2, x, true) == vCovS(t1, x, true)))
+	vObserve("nb", len(bs))
+}
